@@ -33,7 +33,11 @@ fn malformed_first(rng: &mut Rng, ctype: u8) -> Vec<u8> {
         21 => vec![rng.u8()],
         22 => match rng.below(6) {
             0 => vec![*rng.pick(&[0x63u8, 0x07, 0x09, 0x15, 0x17, 0xff]), 0, 0, 1, 0xaa], // unknown handshake type
-            1 => vec![0x0e, 0, 0, 9, 1, 2],                                                // cut short
+            1 => match rng.below(3) {
+                0 => vec![0x0e, 0, 0, 9, 1, 2],   // cut short
+                1 => vec![*rng.pick(&[0x0eu8, 0x00, 0x05]), 1, 0, 0], // declared length 65536, nothing present
+                _ => vec![*rng.pick(&[0x14u8, 0x18]), 0xff, 0, 1, 1, 2], // declared length 0xff0001, two bytes present
+            },
             2 => vec![0x0b, 0, 1],                                                         // cut inside the header
             3 => {
                 // ClientHello with session-id length 33
@@ -72,9 +76,10 @@ fn malformed_tail(rng: &mut Rng, ctype: u8) -> Vec<u8> {
     match ctype {
         20 => vec![*rng.pick(&[0u8, 2, 0xff])],
         21 => vec![rng.u8()],
-        22 => match rng.below(3) {
+        22 => match rng.below(4) {
             0 => vec![*rng.pick(&[0x63u8, 0x07, 0x15, 0xff]), 0, 0, 1, 0xaa],
             1 => vec![0x0e, 0, 0, 9, 1, 2],
+            2 => vec![*rng.pick(&[0x0eu8, 0x00, 0x05]), 1, 0, 0],
             _ => vec![0x14, 0],
         },
         _ => vec![],
